@@ -131,6 +131,10 @@ def boundary_sources():
         out.append((f"gen/negimpl_{n}", f"unsafe impl<T: {a}> !Send for Wrapper<T> {{}}\nimpl<'a, T: ?Sized + {a}> !Sync for &'a mut T where T: Clone {{}}\n"))
         out.append((f"gen/fieldgroups_{n}", f"struct S {{\n    {a}: u32,\n    bb: u32,\n\n    ccc: u32,\n    d: u32,\n}}\n"
                     f"enum E {{\n    V {{\n        {a}: u32,\n        bb: u32,\n\n        ccc: u32,\n    }},\n    W = 1,\n    Xyz = 22,\n}}\n"))
+        out.append((f"gen/dynty_{n}", f"fn f(x: &(dyn Trait{a} + OtherTrait + Send + Sync)) -> Box<(dyn Fn(u32) -> u32 + 'static)> {{\n    let y: &(dyn Trait{a} + Send) = x;\n}}\n"))
+        out.append((f"gen/castarg_{n}", f"fn f() {{\n    let v = reg_{a}(\"first line\nsecond line\", value as &(dyn SomeLongTraitNameNumberOne + SomeLongTraitNameNumberTwo + Send + Sync));\n}}\n"))
+        out.append((f"gen/tyargs_{n}", f"fn f() {{\n    let v: Map<Key{a}, &(dyn SomeLongTraitNameNumberOne + SomeLongTraitNameNumberTwo + Send)> = make::<Key{a}, (u32, &(dyn Other + Sync))>(1, 2);\n}}\n"))
+        out.append((f"gen/mlstrarg_{n}", f"fn f() {{\n    foo(\"line one\n    line two\", {a}, second_argument, |x| x + 1);\n}}\n"))
         out.append((f"gen/quals_{n}", f"pub(crate) const unsafe extern \"C\" fn {a}<'a, T>(x: &'a mut T) -> impl Iterator<Item = &'a T> + 'a {{}}\npub async unsafe fn g{a}(self: Pin<&mut Self>) {{}}\n"))
     return out
 
@@ -281,3 +285,20 @@ def dirty(text, seed):
                 s = s + rng.choice([" ", "  ", "\t"])
         out.append(s)
     return "\n".join(out)
+
+
+def family_instances(key, sources=None, per_family=1):
+    """`per_family` instances (chosen by a hash of `key` and the family; 0 = all) of every
+    template family of the generated sources.  -> list of (name, text)"""
+    gens = sources if sources is not None else (boundary_sources() + macro_sources())
+    fams = {}
+    for g in gens:
+        fams.setdefault(g[0].rsplit("_", 1)[0], []).append(g)
+    out = []
+    for fam, gs in sorted(fams.items()):
+        if per_family == 0:
+            out += gs
+        else:
+            h = core.fnv(f"{key}:{fam}".encode())
+            out += [gs[(h + k * 7) % len(gs)] for k in range(min(per_family, len(gs)))]
+    return out
